@@ -35,7 +35,11 @@ RULE = ("cases are drawn from random.Random(VERIF_SEED). Scalar handles: every o
         "cases), mode sizes 1..3 (4 in thorough), ranks 1..3, integer entries of both signs with zeros, unit and "
         "non-unit model weights (negative, zero and fractional ones too), weight arrays none / ones / 0-1 masks / integers / halves, sparse and dense data, "
         "sample sets of 0..8 (12) subscripts with repeats, correction ranges with repeats, three polynomial stand-in "
-        "handle pairs, every combination of requested outputs, and a malformed stream (mismatched shapes, no handle, "
+        "handle pairs, every combination of requested outputs; every array-valued argument (weights / mask, data, factor "
+        "matrices, subscript matrix, value / weight / correction vectors) in Fortran-contiguous, C-contiguous, permuted-axes-view "
+        "and strided-view layouts (1-d: contiguous, strided, negative stride) with non-constant, non-symmetric values and 0/1 "
+        "masks on the non-cubical shapes (2,3), (3,1,2), (2,3,2), all layout combinations enumerated, also through "
+        "gcp_opt(LBFGSB, mask = ndarray | tensor) with an optimiser stand-in that evaluates once; and a malformed stream (mismatched shapes, no handle, "
         "out-of-range subscripts). A case is non-trivial when the implementation accepts it and at least one data / "
         "model entry is non-zero; distinct = distinct case hash")
 ASSUMPTIONS = [
@@ -523,7 +527,7 @@ class EvaluateCorr(Family):
             W = None if wk == "none" else {"shape": shape, "data": frac_w(rng, cells, wk)}
             wantF, wantG = rng.choice([(True, True), (True, True), (True, False), (False, True)])
             c = {"K": K, "X": X, "W": W, "wk": wk, "handle": rng.choice(list(STANDINS)), "wantF": wantF, "wantG": wantG,
-                 "sparseX": rng.random() < 0.25, "bad": None}
+                 "sparseX": rng.random() < 0.25, "bad": None, "lw": rng.choice(LAYOUTS)}
             r = rng.random()
             if r < 0.04:
                 c["wantF"] = c["wantG"] = False
@@ -556,7 +560,7 @@ class EvaluateCorr(Family):
             X = X.to_sptensor() if hasattr(X, "to_sptensor") else ttb.sptensor.from_tensor_type(X)
         W = None
         if c["W"] is not None:
-            W = np.array(to_float_list(c["W"]["data"]), dtype=float).reshape(tuple(c["W"]["shape"]), order="F")
+            W = nd_from_F(c["W"]["shape"], c["W"]["data"], c.get("lw", "F"))
         with warnings.catch_warnings():
             warnings.simplefilter("ignore")
             return fg_canon(fg.evaluate(mk_k(K), X, W, f, g), wantF, wantG)
@@ -628,6 +632,370 @@ class EvaluateCorr(Family):
             yield {**c, "W": None, "wk": "none"}
         if c.get("sparseX"):
             yield {**c, "sparseX": False}
+
+
+# ----------------------------------------------------------------------------
+# memory layouts: the same logical array (same value at every subscript) stored differently.
+# Nothing in the property depends on how NumPy happens to store an argument.
+# ----------------------------------------------------------------------------
+LAYOUTS = ["F", "C", "T", "S"]          # Fortran-contiguous, C-contiguous, permuted-axes view, strided view
+VEC_LAYOUTS = ["C", "S", "N"]           # 1-d: contiguous, strided view, negative-stride view
+
+
+def lay(a, layout):
+    """An array equal to `a` entry by entry whose memory layout is `layout`."""
+    a = np.asarray(a)
+    if layout == "F":
+        out = np.array(a, order="F", copy=True)
+    elif layout == "C":
+        out = np.array(a, order="C", copy=True)
+    elif layout == "T":
+        # a view with permuted axes of a C-contiguous base (neither C nor F contiguous for order >= 3)
+        n = a.ndim
+        if n < 2:
+            out = np.array(a, copy=True)
+        else:
+            p = list(range(1, n)) + [0]
+            inv = [p.index(k) for k in range(n)]
+            out = np.array(a.transpose(p), order="C", copy=True).transpose(inv)
+    elif layout == "S":
+        # every second cell of a larger buffer filled with junk
+        base = np.full(tuple(2 * s + 1 for s in a.shape), 7777, dtype=a.dtype)
+        out = base[tuple(slice(1, None, 2) for _ in a.shape)]
+        out[...] = a
+    elif layout == "N":
+        # negative strides along every axis
+        rev = tuple(slice(None, None, -1) for _ in a.shape)
+        out = np.array(a[rev], order="C", copy=True)[rev]
+    else:
+        raise ValueError(layout)
+    assert out.shape == a.shape and np.array_equal(out, a)
+    return out
+
+
+def nd_from_F(shape, data, layout, dtype=float):
+    """F-order value list -> ndarray of the given shape (value by subscript) in the given layout."""
+    vals = to_float_list(data) if dtype is float else list(data)
+    return lay(np.array(vals, dtype=dtype).reshape(tuple(shape), order="F"), layout)
+
+
+def mk_k_lay(K, layout):
+    R = len(K["weights"])
+    fms = [lay(np.array(f, dtype=float).reshape(len(f), R), layout) for f in K["factors"]]
+    return ttb.ktensor(fms, np.array(to_float_list(K["weights"])))
+
+
+def distinct_values(rng, n, lo=-6, hi=9):
+    """non-constant, pairwise distinct where the pool allows it"""
+    pool = [v for v in range(lo, hi + 1) if v != 0]
+    rng.shuffle(pool)
+    out = (pool * (n // len(pool) + 1))[:n]
+    return out
+
+
+def mask_values(rng, n):
+    """a 0/1 mask that is neither constant nor symmetric under reversal"""
+    while True:
+        m = [rng.choice([0, 1]) for _ in range(n)]
+        if n < 2 or (0 < sum(m) < n and (m != m[::-1] or n == 2)):
+            return m
+
+
+LAYOUT_SHAPES = [[2, 3], [3, 1, 2], [2, 3, 2]]   # non-cubical, at least two non-singleton modes
+
+
+def exact_objective(K, shape, xdata, wdata, handle):
+    f = STANDINS[handle][0]
+    tot = Fraction(0)
+    for idx, i in enumerate(gen.all_subs(shape)):
+        w = Fraction(1) if wdata is None else Fraction(wdata[idx])
+        tot += w * f(Fraction(xdata[idx]), kget(K, i))
+    return tot
+
+
+class EvaluateLayouts(Family):
+    """fg.evaluate must index weights / data / factor matrices BY SUBSCRIPT whatever their memory
+    layout: every combination of layouts of the three array arguments is enumerated."""
+    name = "evaluate_layouts"
+    theorems = ("C12_objective_sum", "C12_gradient_is_partial_derivative")
+
+    def gen(self, rng, tier):
+        out = []
+        reps = 1 if tier == "quick" else 4
+        hs = list(STANDINS)
+        n = 0
+        for _ in range(reps):
+            for shape in LAYOUT_SHAPES:
+                cells = gen.numel(shape)
+                for wk in ("ints", "mask"):
+                    R = rng.randint(1, 3)
+                    K = {"weights": [rng.choice([1, 1, 2, -1]) for _ in range(R)],
+                         "factors": [gen.matrix(rng, s, R, -3, 3, 0.15) for s in shape]}
+                    X = {"shape": shape, "data": distinct_values(rng, cells)}
+                    W = {"shape": shape, "data": distinct_values(rng, cells, 1, 9) if wk == "ints" else mask_values(rng, cells)}
+                    k = rng.randrange(len(shape))
+                    probe = [k, rng.randrange(shape[k]), rng.randrange(R)]
+                    for lw, lx, lf in itertools.product(LAYOUTS, LAYOUTS, LAYOUTS):
+                        out.append({"K": K, "X": X, "W": W, "wk": wk, "handle": hs[n % len(hs)], "probe": probe,
+                                    "lw": lw, "lx": lx, "lf": lf, "xcopy": bool(n % 2)})
+                        n += 1
+        return out
+
+    @staticmethod
+    def _impl(c, K=None, wantG=True):
+        K = K or c["K"]
+        f, g = pick(c["handle"], True, wantG)
+        W = nd_from_F(c["W"]["shape"], c["W"]["data"], c["lw"])
+        W0 = W.copy()
+        import logging
+        with warnings.catch_warnings():
+            warnings.simplefilter("ignore")
+            logging.disable(logging.WARNING)
+            try:
+                X = ttb.tensor(nd_from_F(c["X"]["shape"], c["X"]["data"], c["lx"]), copy=c["xcopy"])
+                res = fg.evaluate(mk_k_lay(K, c["lf"]), X, W, f, g)
+            finally:
+                logging.disable(logging.NOTSET)
+        if not np.array_equal(W, W0):
+            raise AssertionError("evaluate changed the weights array")
+        return fg_canon(res, True, wantG)
+
+    def evaluate(self, cases):
+        impls = [call(self._impl, c) for c in cases]
+        # the model does not know about layouts: one request per distinct logical input
+        keys, reqs = {}, []
+        for c in cases:
+            key = case_key(c)
+            if key not in keys:
+                keys[key] = len(reqs)
+                reqs.append({"op": "gcp_evaluate", "K": c["K"], "X": c["X"], "W": c["W"], "handle": c["handle"],
+                             "wantF": True, "wantG": True})
+        models = drive(reqs)
+        out = []
+        for c, impl in zip(cases, impls):
+            mo = models[keys[case_key(c)]]
+            shape = c["X"]["shape"]
+            tags = [f"N{len(shape)}", "W:" + c["wk"], f"w{c['lw']}", f"x{c['lx']}", f"f{c['lf']}"]
+            if "ok" not in impl:
+                out.append(Verdict("violation", f"fg.evaluate raised {impl.get('exc')}: {impl.get('msg')} for weights in "
+                                                f"layout {c['lw']}, data {c['lx']}, factors {c['lf']}", impl, mo, None, tags))
+                continue
+            spec = jnum(exact_objective(c["K"], shape, c["X"]["data"], c["W"]["data"], c["handle"]))
+            if not deep_eq(impl["ok"]["F"], spec):
+                out.append(Verdict("violation", f"objective {impl['ok']['F']} is not the sum over all subscripts i of "
+                                                f"w[i]*f(x[i], m[i]) = {spec} (weights layout {c['lw']}, data {c['lx']}, "
+                                                f"factors {c['lf']})", impl, mo, spec, tags))
+                continue
+            if not deep_eq(impl, mo):
+                out.append(Verdict("violation", f"fg.evaluate differs from the (proved) model (weights layout {c['lw']}, "
+                                                f"data {c['lx']}, factors {c['lf']})", impl, mo, None, tags))
+                continue
+            # gradient entry = exact partial derivative of the implementation's own objective (5-point stencil,
+            # exact for the polynomial stand-ins)
+            k, a, r = c["probe"]
+            vals = []
+            for dt in (2, 1, -1, -2):
+                K2 = {"weights": c["K"]["weights"], "factors": [[list(row) for row in fm] for fm in c["K"]["factors"]]}
+                K2["factors"][k][a][r] += dt
+                o = call(self._impl, c, K2, False)
+                vals.append(Fraction(o["ok"]["F"]) if "ok" in o else None)
+            if None not in vals:
+                d = (-vals[0] + 8 * vals[1] - 8 * vals[2] + vals[3]) / 12
+                got = impl["ok"]["G"][k][a][r]
+                if not deep_eq(got, jnum(d)):
+                    out.append(Verdict("violation", f"gradient entry G[{k}][{a},{r}] = {got} is not the partial derivative "
+                                                    f"{d} of the objective (weights layout {c['lw']})", impl, mo, jnum(d), tags))
+                    continue
+            out.append(Verdict("ok", "", impl, mo, spec, tags, True))
+        return out
+
+    def shrink(self, case):
+        for key in ("lf", "lx"):
+            if case[key] != "F":
+                yield {**case, key: "F"}
+        R = len(case["K"]["weights"])
+        if R > 1:
+            K2 = {"weights": case["K"]["weights"][:-1], "factors": [[row[:-1] for row in f] for f in case["K"]["factors"]]}
+            yield {**case, "K": K2, "probe": [case["probe"][0], case["probe"][1], min(case["probe"][2], R - 2)]}
+
+
+def case_key(c):
+    import json as _json
+    return _json.dumps([c["K"], c["X"], c["W"], c["handle"]], sort_keys=True)
+
+
+class EstimateLayouts(Family):
+    """fg_est.estimate / estimate_helper with the subscript matrix, the value / weight / correction
+    vectors and the factor matrices in every layout."""
+    name = "estimate_layouts"
+    theorems = ("C12_estimate_helper", "C12_zexp")
+
+    def gen(self, rng, tier):
+        out = []
+        reps = 1 if tier == "quick" else 4
+        hs = list(STANDINS)
+        n = 0
+        for _ in range(reps):
+            for shape in LAYOUT_SHAPES:
+                R = rng.randint(1, 3)
+                K = {"weights": [1] * R, "factors": [gen.matrix(rng, s, R, -3, 3, 0.15) for s in shape]}
+                ns = rng.randint(4, 7)
+                subs = [[rng.randrange(s) for s in shape] for _ in range(ns)]
+                subs[-1] = list(subs[0])  # a repeat
+                crng = sorted({rng.randrange(ns) for _ in range(2)})
+                base = {"K": K, "subs": subs, "ncols": len(shape), "xvals": distinct_values(rng, ns),
+                        "w": distinct_values(rng, ns, 1, 9), "crng": crng}
+                for ls, lv, lf in itertools.product(LAYOUTS, VEC_LAYOUTS, LAYOUTS):
+                    out.append({**base, "handle": hs[n % len(hs)], "ls": ls, "lv": lv, "lf": lf, "use_crng": bool(n % 2)})
+                    n += 1
+        return out
+
+    @staticmethod
+    def _impl(c):
+        f, g = STANDINS[c["handle"]]
+        subs = lay(np.array(c["subs"], dtype=int).reshape(len(c["subs"]), c["ncols"]), c["ls"])
+        xv = lay(np.array(c["xvals"], dtype=float), c["lv"])
+        w = lay(np.array(c["w"], dtype=float), c["lv"])
+        crng = lay(np.array(c["crng"], dtype=int), c["lv"]) if c["use_crng"] else None
+        with warnings.catch_warnings():
+            warnings.simplefilter("ignore")
+            import logging
+            logging.disable(logging.WARNING)
+            try:
+                K = mk_k_lay(c["K"], c["lf"])
+                res = fg_est.estimate(K, subs, xv, w, f, g, False, crng)
+                mv, Z = fg_est.estimate_helper(K.factor_matrices, subs)
+            finally:
+                logging.disable(logging.NOTSET)
+        return {"est": fg_canon(res, True, True),
+                "helper": {"mvals": jval(np.asarray(mv)), "Zexp": [jval(np.asarray(z)) for z in Z]}}
+
+    def evaluate(self, cases):
+        impls = [call(self._impl, c) for c in cases]
+        reqs = []
+        for c in cases:
+            reqs.append({"op": "gcp_estimate", "K": c["K"], "subs": c["subs"], "xvals": c["xvals"], "w": c["w"],
+                         "handle": c["handle"], "wantF": True, "wantG": True,
+                         "crng": c["crng"] if c["use_crng"] else None})
+            reqs.append({"op": "gcp_helper", "factors": c["K"]["factors"], "subs": c["subs"]})
+        models = drive(reqs)
+        out = []
+        for i, (c, impl) in enumerate(zip(cases, impls)):
+            m_est, m_help = models[2 * i], models[2 * i + 1]
+            tags = [f"N{c['ncols']}", f"s{c['ls']}", f"v{c['lv']}", f"f{c['lf']}", "crng" if c["use_crng"] else "nocrng"]
+            where = f"(subscripts layout {c['ls']}, vectors {c['lv']}, factors {c['lf']})"
+            if "ok" not in impl:
+                out.append(Verdict("violation", f"estimate raised {impl.get('exc')}: {impl.get('msg')} {where}", impl, m_est, None, tags))
+            elif not deep_eq({"ok": impl["ok"]["helper"]}, m_help):
+                out.append(Verdict("violation", f"estimate_helper differs from the (proved) model {where}", impl, m_help, None, tags))
+            elif not deep_eq({"ok": impl["ok"]["est"]}, m_est):
+                out.append(Verdict("violation", f"estimate differs from the (proved) model {where}", impl, m_est, None, tags))
+            else:
+                out.append(Verdict("ok", "", impl, m_est, None, tags, True))
+        return out
+
+
+class GcpOptMask(Family):
+    """the mask / weights array forwarded by gcp_opt(LBFGSB, mask=ndarray | tensor): SciPy's L-BFGS-B is
+    replaced by a stand-in that evaluates the objective and gradient once at the initial guess; what it is
+    handed must be the weighted objective and its exact partial derivatives, whatever the layout of the mask."""
+    name = "gcp_opt_mask"
+    theorems = ("C12_objective_sum", "C12_gradient_is_partial_derivative")
+
+    def gen(self, rng, tier):
+        out = []
+        reps = 1 if tier == "quick" else 3
+        hs = list(STANDINS)
+        n = 0
+        for _ in range(reps):
+            for shape in LAYOUT_SHAPES:
+                cells = gen.numel(shape)
+                R = rng.randint(1, 2)
+                # signed one-hot columns: normalize("all") leaves such an initial guess unchanged, exactly
+                factors = []
+                for s in shape:
+                    cols = [(rng.randrange(s), rng.choice([1, -1])) for _ in range(R)]
+                    factors.append([[sg if row == j else 0 for (j, sg) in cols] for row in range(s)])
+                K = {"weights": [1] * R, "factors": factors}
+                X = {"shape": shape, "data": distinct_values(rng, cells)}
+                kinds = [("ndarray", "mask"), ("ndarray", "ints"), ("tensor", "mask")]
+                for (mtype, wk) in kinds:
+                    W = {"shape": shape, "data": mask_values(rng, cells) if wk == "mask" else distinct_values(rng, cells, 1, 9)}
+                    for lw, lx in itertools.product(LAYOUTS, LAYOUTS):
+                        out.append({"K": K, "X": X, "W": W, "wk": wk, "mtype": mtype, "lw": lw, "lx": lx,
+                                    "handle": hs[n % len(hs)]})
+                        n += 1
+        return out
+
+    @staticmethod
+    def _impl(c):
+        import logging
+        from pyttb.gcp import optimizers as O
+        f, g = STANDINS[c["handle"]]
+        rec = []
+
+        def standin(func, x0, fprime=None, approx_grad=False, bounds=None, **kw):
+            fv, gv = func(np.array(x0, dtype=float))
+            rec.append((float(fv), np.array(gv, dtype=float)))
+            return np.array(x0, dtype=float), fv, {"grad": gv, "warnflag": 0, "nit": 0, "funcalls": 1, "task": "stand-in"}
+
+        X = ttb.tensor(nd_from_F(c["X"]["shape"], c["X"]["data"], c["lx"]))
+        Wn = nd_from_F(c["W"]["shape"], c["W"]["data"], c["lw"])
+        mask = ttb.tensor(Wn) if c["mtype"] == "tensor" else Wn
+        init = mk_k(c["K"])
+        old = O.fmin_l_bfgs_b
+        O.fmin_l_bfgs_b = standin
+        logging.disable(logging.WARNING)
+        try:
+            with warnings.catch_warnings():
+                warnings.simplefilter("ignore")
+                result, M0, info = ttb.gcp_opt(X, len(c["K"]["weights"]), (f, g, -np.inf), O.LBFGSB(maxiter=1),
+                                               init=init, mask=mask, printitn=0)
+        finally:
+            O.fmin_l_bfgs_b = old
+            logging.disable(logging.NOTSET)
+        if not rec:
+            raise AssertionError("the optimiser was never called")
+        same_init = (np.array_equal(M0.weights, init.weights)
+                     and all(np.array_equal(a, b) for a, b in zip(M0.factor_matrices, init.factor_matrices)))
+        fv, gv = rec[0]
+        G, pos = [], 0
+        for fm in init.factor_matrices:
+            nel = fm.size
+            G.append(jval(gv[pos:pos + nel].reshape(fm.shape, order="F")))
+            pos += nel
+        return {"F": jnum(fv), "G": G, "same_init": bool(same_init), "final_f": jnum(float(info["final_f"]))}
+
+    def evaluate(self, cases):
+        impls = [call(self._impl, c) for c in cases]
+        reqs = []
+        for c in cases:
+            # a tensor mask is also multiplied into the data by gcp_opt (missing entries are zeroed)
+            xd = c["X"]["data"] if c["mtype"] == "ndarray" else [x * w for x, w in zip(c["X"]["data"], c["W"]["data"])]
+            reqs.append({"op": "gcp_evaluate", "K": c["K"], "X": {"shape": c["X"]["shape"], "data": xd}, "W": c["W"],
+                         "handle": c["handle"], "wantF": True, "wantG": True})
+        models = drive(reqs)
+        out = []
+        for c, impl, mo, rq in zip(cases, impls, models, reqs):
+            tags = [f"N{len(c['X']['shape'])}", c["mtype"], "W:" + c["wk"], f"w{c['lw']}", f"x{c['lx']}"]
+            where = f"(mask {c['mtype']} in layout {c['lw']}, data layout {c['lx']})"
+            if "ok" not in impl:
+                out.append(Verdict("violation", f"gcp_opt raised {impl.get('exc')}: {impl.get('msg')} {where}", impl, mo, None, tags))
+                continue
+            r = impl["ok"]
+            if not r["same_init"]:
+                out.append(Verdict("corr", "gcp_opt changed a signed one-hot initial guess while normalising", impl, mo, None, tags))
+                continue
+            spec = jnum(exact_objective(c["K"], c["X"]["shape"], rq["X"]["data"], c["W"]["data"], c["handle"]))
+            if not deep_eq(r["F"], spec) or not deep_eq(r["final_f"], spec):
+                out.append(Verdict("violation", f"the objective handed to the optimiser, {r['F']}, is not the sum over all "
+                                                f"subscripts i of w[i]*f(x[i], m[i]) = {spec} {where}", impl, mo, spec, tags))
+            elif not deep_eq({"ok": {"F": r["F"], "G": r["G"]}}, mo):
+                out.append(Verdict("violation", f"the objective / gradient handed to the optimiser differ from the (proved) "
+                                                f"model of evaluate {where}", impl, mo, spec, tags))
+            else:
+                out.append(Verdict("ok", "", impl, mo, spec, tags, True))
+        return out
 
 
 class AllModes(Family):
@@ -872,4 +1240,5 @@ class FullSample(Family):
 
 
 def families():
-    return [HandleFidelity(), DerivativeGrid(), SymbolicDerivative(), TablePairing(), EvaluateCorr(), AllModes(), EstimateCorr(), FullSample()]
+    return [HandleFidelity(), DerivativeGrid(), SymbolicDerivative(), TablePairing(), EvaluateCorr(), EvaluateLayouts(),
+            GcpOptMask(), EstimateLayouts(), AllModes(), EstimateCorr(), FullSample()]
